@@ -135,6 +135,9 @@ def rule_register(ctx: Ctx, fname: str, gpt: bool) -> None:
     type_vars = _type_vars(p, f, md) if gpt else set()
     pats = f.params[2] if not gpt else 'skip_layers'
     cls_exprs = {f'{md}.__class__.__name__', f'type({md}).__name__'}
+    # a local that holds exactly the class name (single definition) stands for it
+    cls_exprs |= {n.targets[0].id for n in p.nodes(f) if isinstance(n, ast.Assign) and len(n.targets) == 1 and isinstance(n.targets[0], ast.Name)
+                  and norm(n.value) in (f'{md}.__class__.__name__', f'type({md}).__name__') and len(p.local_defs(f, n.targets[0].id)) == 1}
     need = {f'any_match({nm}, {pats})': False, 'CLASS': False, f'requires_grad({md})': True}
     seen = set()
     extra = []
@@ -170,7 +173,12 @@ def rule_register(ctx: Ctx, fname: str, gpt: bool) -> None:
         body = loops[0].body
         cls_lower = f'{md}.__class__.__name__.lower()'
         tv_defs = [n for n in p.nodes(f) if isinstance(n, ast.Assign) and len(n.targets) == 1 and isinstance(n.targets[0], ast.Name) and norm(n.value) in (cls_lower, f'type({md}).__name__.lower()')]
-        inline_uses = [n for n in p.nodes(f) if isinstance(n, ast.Call) and norm(n) in (cls_lower, f'type({md}).__name__.lower()')]
+        tv_defs = [n for n in tv_defs if True]
+        # locals holding the (not yet lower-cased) class name: `cn = module.__class__.__name__` ... `cn.lower()`
+        raw_names = {n.targets[0].id for n in p.nodes(f) if isinstance(n, ast.Assign) and len(n.targets) == 1 and isinstance(n.targets[0], ast.Name)
+                     and norm(n.value) in (f'{md}.__class__.__name__', f'type({md}).__name__') and len(p.local_defs(f, n.targets[0].id)) == 1}
+        lowered = {cls_lower, f'type({md}).__name__.lower()'} | {f'{r}.lower()' for r in raw_names}
+        inline_uses = [n for n in p.nodes(f) if isinstance(n, ast.Call) and norm(n) in lowered]
         ctx.check(bool(tv_defs) or bool(inline_uses), rid, f, 'dispatch on the lower-cased class name only', 'module_name',
                   f'{fname}: the supported-type decision does not use {cls_lower}', st)
         names = {n.targets[0].id for n in tv_defs}
@@ -180,7 +188,7 @@ def rule_register(ctx: Ctx, fname: str, gpt: bool) -> None:
                 self.val = val
 
             def visit_Call(self, n: ast.Call) -> ast.AST:  # noqa: N802
-                if norm(n) in (cls_lower, f'type({md}).__name__.lower()'):
+                if norm(n) in lowered:
                     return ast.copy_location(ast.Constant(value=self.val), n)
                 self.generic_visit(n)
                 return n
